@@ -58,6 +58,7 @@ type repoWorld struct {
 	treeI    plumbing.Hash
 	commitH  plumbing.Hash
 	commitT  plumbing.Hash
+	commitD  plumbing.Hash
 	paths    []string
 }
 
@@ -191,6 +192,16 @@ func newRepoWorld(row *repoRow) (*repoWorld, error) {
 	r.Storer.SetReference(plumbing.NewHashReference("refs/heads/master", rw.commitH))
 	r.Storer.SetReference(plumbing.NewHashReference("refs/heads/target", rw.commitT))
 	r.Storer.SetReference(plumbing.NewHashReference("refs/heads/twin", rw.commitH))
+	// a root commit with the target tree: a branch that does not descend from HEAD
+	dc := &object.Commit{Author: *repoSig, Committer: *repoSig, Message: "diverged\n", TreeHash: rw.treeT}
+	do := r.Storer.NewEncodedObject()
+	if err := dc.Encode(do); err != nil {
+		return nil, err
+	}
+	if rw.commitD, err = r.Storer.SetEncodedObject(do); err != nil {
+		return nil, err
+	}
+	r.Storer.SetReference(plumbing.NewHashReference("refs/heads/diverged", rw.commitD))
 	r.Storer.SetReference(plumbing.NewSymbolicReference(plumbing.HEAD, "refs/heads/master"))
 	idx := &index.Index{Version: 2}
 	for _, p := range rw.paths {
@@ -410,6 +421,12 @@ func (rw *repoWorld) run(row *repoRow) error {
 		return w.Checkout(&git.CheckoutOptions{Branch: "refs/heads/target", Hash: rw.commitT})
 	case "checkout-force-missing-hash":
 		return w.Checkout(&git.CheckoutOptions{Hash: plumbing.NewHash("1234567890123456789012345678901234567890"), Force: true})
+	case "merge-ff":
+		return rw.r.Merge(*plumbing.NewHashReference("refs/heads/target", rw.commitT), git.MergeOptions{Strategy: git.FastForwardMerge})
+	case "merge-nonff":
+		return rw.r.Merge(*plumbing.NewHashReference("refs/heads/diverged", rw.commitD), git.MergeOptions{Strategy: git.FastForwardMerge})
+	case "merge-unsupported":
+		return rw.r.Merge(*plumbing.NewHashReference("refs/heads/target", rw.commitT), git.MergeOptions{Strategy: git.MergeStrategy(99)})
 	case "pull":
 		// the repository is its own remote: "origin" points at its directory, the upstream branch is target
 		// (a child commit of HEAD), so the pull is a fast-forward of master to T
@@ -528,7 +545,7 @@ var repoOpsOf = map[string][]string{
 	"C27": {"status"},
 	"C32": {"sparse"},
 	"C29": {"reset-hard", "checkout-force", "checkout-force-create", "checkout", "checkout-twin", "checkout-create", "reset-merge", "reset-keep", "add", "add-all", "remove", "move", "clean", "commit", "sparse",
-		"pull", "reset-merge-head", "reset-keep-head", "reset-hard-badsparse", "reset-merge-badsparse", "reset-keep-badsparse", "reset-mixed-badsparse",
+		"pull", "merge-ff", "merge-nonff", "merge-unsupported", "reset-merge-head", "reset-keep-head", "reset-hard-badsparse", "reset-merge-badsparse", "reset-keep-badsparse", "reset-mixed-badsparse",
 		"reset-hard-missing", "checkout-create-existing", "checkout-missing-branch", "checkout-branch-and-hash", "checkout-force-missing-hash"},
 }
 
@@ -580,7 +597,7 @@ func repoCmd(args []string) error {
 	}
 	gitEvery := len(rows)/gitBudget + 1
 	okCount, refusedCount := 0, 0
-	twinInC29 := map[string]bool{"pull": true, "reset-merge-head": true, "reset-keep-head": true, "reset-hard-missing": true,
+	twinInC29 := map[string]bool{"pull": true, "merge-nonff": true, "reset-merge-head": true, "reset-keep-head": true, "reset-hard-missing": true,
 		"checkout-create-existing": true, "checkout-missing-branch": true, "checkout-force-missing-hash": true}
 	for ri, row := range rows {
 		// C25 runs every row twice: plainly, and with cached stat data in the index while the files that differ
@@ -954,6 +971,8 @@ func gitTwin(r *rep.Report, row *repoRow) {
 		args = []string{"reset", "-q", "--keep", "HEAD"}
 	case "pull":
 		args = []string{"merge", "-q", "--ff-only", "target"}
+	case "merge-nonff":
+		args = []string{"merge", "-q", "--ff-only", "diverged"}
 	case "reset-hard-missing":
 		args = []string{"reset", "-q", "--hard", "1234567890123456789012345678901234567890"}
 	case "checkout-create-existing":
